@@ -48,7 +48,7 @@ FAULT_PROBES = {"duplicate_key_put": "dup_rejected", "oversize_key_put": "key_25
                 "use_of_closed_handle": "closed_handle_rejected", "non_bytes_value": "badvalue_rejected"}
 PROBES = ["shortcut_taken", "rescan_forced_by_other_handle", "rescan_after_failed_put", "flush_by_bufsize_threshold", "key_255", "key_256_rejected",
           "direct_raw_write", "dup_rejected", "readonly_write_rejected", "closed_handle_rejected", "clone_used", "queued_key_read_in_session",
-          "deferred_failure_at_session_end", "history_len_le_6", "badvalue_rejected", "read_after_deferred_dup", "put_raised_for_an_earlier_queued_item"]
+          "history_len_le_6", "badvalue_rejected", "put_left_in_the_queue"]
 
 
 def budget(tier):
@@ -466,15 +466,28 @@ def run_plan(plan, trace=False):
                             if j != op["h"]:
                                 appended_since[j] += 1
                         if deferring:
-                            res.stats["probe:queued_key_read_in_session"] += 1
                             if h["obj"]._backend._usedmem == 0:
                                 res.stats["probe:flush_by_bufsize_threshold"] += 1
-                        check_view(h, "put")
+                        if deferring and len(log) % 3:
+                            # reading a queued key makes the collection store it: leave most puts QUEUED, so that later
+                            # operations (a duplicate of a still-queued key, a listing, the session end) meet a non-empty queue
+                            res.stats["probe:put_left_in_the_queue"] += 1
+                        else:
+                            if deferring:
+                                res.stats["probe:queued_key_read_in_session"] += 1
+                            check_view(h, "put")
                         outcome_seq.append(("put", "ok"))
                     else:
                         stale_or_fail[0] = True
                         if raised is None:
-                            if deferring:
+                            # A put that returns is a successful put - and a duplicate (or 256-byte) key cannot be one: the put
+                            # itself has to refuse it, for every buffer size.  (Before fix 7e7e4af the tree deferred the
+                            # refusal to a later flush under a deferring bufsize; the branch below, which followed such a
+                            # deferred failure to its end, is kept for sensitivity runs against older trees: set
+                            # VERIF_C02_ALLOW_DEFERRED=1.)
+                            import os as _os
+
+                            if deferring and _os.environ.get("VERIF_C02_ALLOW_DEFERRED"):
                                 # legitimately deferred: the failure must surface at the flush (session end)
                                 h.setdefault("pending_dups" if should_fail == "dup" else "pending_oversize", []).append(kb)
                                 outcome_seq.append(("put", "deferred-" + should_fail))
